@@ -76,6 +76,23 @@ pub fn run<A: Cx>(d: &mut Drv<A>, scale: usize, all: bool) {
                 d.emit(json!({"op": "contains", "x": {"kind": "slice", "src": sl(0, oa, oa + n)}, "y": y.clone()}));
                 d.emit(json!({"op": "contains", "x": {"kind": "arr", "src": sl(0, oa, oa + n)}, "y": y.clone()}));
             }
+            // mismatches by whole words / powers of two
+            if n >= 1 {
+                let big = {
+                    let mut v = arg.clone();
+                    while v.len() < n + 1030 {
+                        let k = v.len().min(n);
+                        let head: Vec<u8> = v[..k].to_vec();
+                        v.extend(head);
+                    }
+                    v
+                };
+                d.emit(json!({"op": "fromsyms", "dst": 6, "c": "iupac", "via": "iter", "syms": big}));
+                for extra in [16usize, 32, 64, 256, 1024] {
+                    d.emit(json!({"op": "contains", "x": {"kind": "seq", "src": whole(3)}, "y": sl(6, 0, n + extra)}));
+                    d.emit(json!({"op": "contains", "x": {"kind": "slice", "src": sl(6, 0, n + extra)}, "y": whole(3)}));
+                }
+            }
             d.emit(json!({"op": "bitop", "dst": 4, "x": sl(0, oa, oa + n), "y": sl(1, ob, ob + n), "t": "or", "via": "ref"}));
             d.emit(json!({"op": "bitop", "dst": 5, "x": sl(0, oa, oa + n), "y": sl(1, ob, ob + n), "t": "and", "via": "ref"}));
             // a | b contains both, both contain a & b
